@@ -383,7 +383,16 @@ def rule_c(ctx, out):
         raise AnalysisError(f"only {n} opcodes compared with the reference arity table")
 
 
+def rule_d(ctx, out):
+    """Load/hash unification in the front-end checks every intervening access (shared with C02.e): merging two loads across a
+    store that may alias them changes what the block computes, and the built-in comparison cannot see it (both sides are
+    re-specified by the same front-end)."""
+    from . import C02
+    C02.rule_e(ctx, out)
+
+
 RULES = [
+    ("C01.d", "load/hash unification checks every intervening access", 2, rule_d),
     ("C01.a", "safety net dominates every emission of an optimized block", 8, rule_a),
     ("C01.b", "opcode -> operator -> opcode round trip", 55, rule_b),
     ("C01.c", "stack-effect table equals the EVM reference", 70, rule_c),
